@@ -412,7 +412,7 @@ type poolRt struct {
 	guns []*gunBase
 	errs map[string]bool // component errors the mocks of this pool have actually returned (or panicked with)
 
-	realNew  func() (core.Gun, error) // rg pools
+	realNew       func() (core.Gun, error) // rg pools
 	gcl, icl, gwu bool
 }
 
@@ -901,7 +901,7 @@ func runCase(input string) string {
 		Request: &monitoring.Counter{}, Response: &monitoring.Counter{},
 		InstanceStart: &monitoring.Counter{}, InstanceFinish: &monitoring.Counter{},
 	}
-	cs := &cliState{}
+	cs := &cliState{sendDone: make(chan struct{})}
 	log := zap.New(core_)
 	var e *engine.Engine
 	if pl.cli != "" {
@@ -947,7 +947,7 @@ func runCase(input string) string {
 			c.hk.onSig = func() { cs.sendSignal(c.hk, pl.cli) }
 			// a point the run never reaches: the signal comes anyway (a blocked run has nothing else to end it)
 			tm := time.AfterFunc(sigFallback, func() { cs.sendSignal(c.hk, pl.cli) })
-			defer tm.Stop()
+			defer func() { cs.quiesce(tm.Stop()) }()
 		}
 		errs0 := make(chan error)
 		errs := make(chan error)
@@ -1415,8 +1415,13 @@ func main() {
 		Class:   class,
 		Workers: 1,
 		Timeout: 20 * time.Second,
-		Rule: "fault plans = (component x position x return kind) + gun/bind/warm-up/schedule-factory failures + shot panic + " +
-			"external cancel at each phase, plain and own-deadline error causes, over 1-3 pools, 0-3 (and 60-80) instances, shared or per-instance schedule; every plan is " +
-			"repeated to sample the runtime's select orders; a case is non-trivial when a fault or a cancel is planned",
+		Rule: "fault plans = (component x position x return kind) + gun/bind/warm-up/schedule-factory failures + shot panic (text, error " +
+			"and int values) + external cancel at each phase (also before the start, with a failing pool), plain and own-deadline error " +
+			"causes, over 1-3 pools, 0-3 (and 60-80) instances, shared or per-instance schedule, startup at once / over time / without " +
+			"end, mock guns and the guns of the repo's registered factories shooting at an in-process server; every plan is repeated to " +
+			"sample the runtime's select orders; in a second worker built from the same tree with scheduling points before every " +
+			"statement of the engine (go build -overlay): the caller's cancel at every statement, forced orderings between two " +
+			"goroutines (a point is held until another one is reached) and runs through cli.runEngine / awaitPandoraTermination with " +
+			"SIGINT / SIGTERM at every kind of moment; a case is non-trivial when a fault, a cancel, a forced ordering or a signal is planned",
 	})
 }
